@@ -4,7 +4,7 @@
 From Coq Require Import List ZArith QArith Bool.
 From PV Require Import lib.Sx lib.Str lib.Result model.GenScc model.SccTime model.SccStash model.SccDecoder model.SccLayout.
 From PV Require Import spec.Spec608 spec.SpecScc05.
-From PV Require Import proofs.SccTableFacts proofs.SccTableFixFacts proofs.SccDoubleFacts proofs.SccItalicsFacts proofs.SccPoponStage1 proofs.SccPoponStage2 proofs.SccPoponStage3 proofs.SccPoponStage4 proofs.SccPoponStage6.
+From PV Require Import proofs.SccTableFacts proofs.SccTableFixFacts proofs.SccDoubleFacts proofs.SccItalicsFacts proofs.SccPoponStage1 proofs.SccPoponStage2 proofs.SccPoponStage3 proofs.SccPoponStage4 proofs.SccPoponStage6 proofs.SccPoponStage5 proofs.SccPoponStage2c.
 From PV Require Import spec.SpecSccTime proofs.SccPoponFacts.
 Import ListNotations.
 Open Scope Z_scope.
@@ -228,6 +228,36 @@ Theorem C05_popon_stage4_captions_partial : forall d off segs evs caps,
   map pc_layout caps = map (fun r => Some (row_pos r)) (loads_of segs).
 Proof. exact popon_stage4_captions. Qed.
 Print Assumptions C05_popon_stage4_captions_partial.
+
+(* ---- STAGE 2c = popon_refines_608 for EVERY in-domain ONE-ROW program: all five item kinds incl. the 16 mid-row codes
+        (italics on / off, blank cell rendered as zero or one space), every preamble style, single or doubled codes:
+        read returns exactly one caption, timed by the EOC / EDM instants, positioned at the row's address, and it
+        satisfies the property oracle -------------------------------------------------------------------------------------- *)
+Theorem C05_popon_one_row_refines_partial : forall d r off tc tc2 t1 t2, row_ok r = true ->
+  get_time tc (Z.of_nat (length (emit_load d [r])) - (if d then 2 else 1)) off = Ok t1 ->
+  get_time tc2 0 off = Ok t2 -> (0 < t1)%Q -> (t1 < t2)%Q -> is_flash (mkPre t1 t2 [] None) = false ->
+  exists c, read off [(tc, emit_load d [r]); (tc2, emit_clear d)] = ROk [c] /\
+            pc_start c = t1 /\ pc_end c = t2 /\ pc_layout c = Some (row_pos r) /\
+            ok_c05 (mkProg d [[r]]) (Ok [observe c]) = true.
+Proof. exact popon_stage2c. Qed.
+Print Assumptions C05_popon_one_row_refines_partial.
+
+(* ---- STAGE 5 = one load of SEVERAL rows with basic / special / extended characters, backspaces and ANY preamble style
+        incl. italics (no mid-row code): italics open after the break on an italic row, close before the break on a plain
+        row, are closed and reopened around a reposition; the captions satisfy the oracle --------------------------------- *)
+Theorem C05_popon_stage5_read_partial : forall d l off tc tc2 t1 t2, rich_load l = true ->
+  get_time tc (Z.of_nat (length (emit_load d l)) - (if d then 2 else 1)) off = Ok t1 ->
+  get_time tc2 0 off = Ok t2 -> Qeq_bool t2 0 = false -> is_flash (mkPre t1 t2 [] None) = false ->
+  read off [(tc, emit_load d l); (tc2, emit_clear d)] = ROk (map (cap_of t1 t2) (expected_load l)).
+Proof. exact popon_stage5_read. Qed.
+Print Assumptions C05_popon_stage5_read_partial.
+Theorem C05_popon_stage5b_refines_partial : forall d l off tc tc2 t1 t2, rich_load_any l = true ->
+  get_time tc (Z.of_nat (length (emit_load d l)) - (if d then 2 else 1)) off = Ok t1 ->
+  get_time tc2 0 off = Ok t2 -> Qeq_bool t2 0 = false -> is_flash (mkPre t1 t2 [] None) = false -> (t1 < t2)%Q ->
+  exists caps, read off [(tc, emit_load d l); (tc2, emit_clear d)] = ROk caps /\
+               ok_c05 (mkProg d [l]) (Ok (map observe caps)) = true.
+Proof. exact popon_stage5b. Qed.
+Print Assumptions C05_popon_stage5b_refines_partial.
 
 (* ---- STAGE 6 = popon_refines_608 for WHOLE PROGRAMS of basic characters: any number of loads, each with any number
         of rows (distinct rows, any order and addresses), each load on its own line, Erase-Displayed-Memory lines
